@@ -1212,6 +1212,56 @@ pub fn ffi_flows(eng: &mut Engine, rng: &mut Rng, thorough: bool, out: &mut Out)
             }
         }
     }
+    // the verifier's override table (flat list over the C ABI, nested map natively): several entries per registry, any order
+    {
+        let ri = eng.cast.creds[eng.cast.cred("r1_alice")].rev.unwrap().0;
+        let reg_id = eng.cast.w.defs[eng.cast.regs[ri].def].regs[eng.cast.regs[ri].reg].rid.0.clone();
+        let other = format!("{reg_id}-other");
+        let tables: Vec<(&str, Vec<(String, u64, u64)>)> = vec![
+            ("one", vec![(reg_id.clone(), 25, 10)]),
+            ("needed-first", vec![(reg_id.clone(), 25, 10), (reg_id.clone(), 30, 10)]),
+            ("needed-last", vec![(reg_id.clone(), 30, 10), (reg_id.clone(), 25, 10)]),
+            ("needed-middle", vec![(reg_id.clone(), 30, 10), (reg_id.clone(), 25, 10), (reg_id.clone(), 40, 10)]),
+            ("not-there", vec![(reg_id.clone(), 30, 10)]),
+            ("other-registry-first", vec![(other.clone(), 25, 10), (reg_id.clone(), 25, 10)]),
+            ("other-registry-last", vec![(reg_id.clone(), 25, 10), (other.clone(), 25, 10), (other.clone(), 26, 10)]),
+            ("override-after-timestamp", vec![(reg_id.clone(), 25, 22)]),
+            ("empty", vec![]),
+        ];
+        for w3c in [false, true] {
+            // the holder's state is for list 1 (timestamp 20); the request demands from = 25
+            let plan = rev_plan(rng, eng, "r1_alice", Some(1), None, "global", json!({"from": 25}));
+            let built_l = if w3c { None } else { eng.build_legacy(&plan).ok() };
+            let built_w = if w3c { eng.build_w3c(&plan).ok() } else { None };
+            for (tcls, table) in &tables {
+                let mut nested: Vec<(String, Vec<(u64, u64)>)> = vec![];
+                for (id, f, t) in table {
+                    match nested.iter_mut().find(|(i, _)| i == id) {
+                        Some((_, v)) => v.push((*f, *t)),
+                        None => nested.push((id.clone(), vec![(*f, *t)])),
+                    }
+                }
+                let o = VOpts { lists: Some(vec![(ri, 0), (ri, 1), (ri, 2)]), rev_reg_defs: true, override_: if table.is_empty() { None } else { Some(nested) }, ..Default::default() };
+                let (rc, _) = build_ctx(&eng.cast, &o, &mut eng.accs);
+                let ctxj = json!({
+                    "schemas": rc.schemas.iter().map(|(k, v)| json!([k.0, v])).collect::<Vec<_>>(),
+                    "cred_defs": rc.cred_defs.iter().map(|(k, v)| json!([k.0, v])).collect::<Vec<_>>(),
+                    "rev_reg_defs": rc.rev_reg_defs.as_ref().map(|m| m.iter().map(|(k, v)| json!([k.0, v])).collect::<Vec<_>>()),
+                    "lists": rc.lists.as_ref().map(|l| l.iter().map(|x| serde_json::to_value(x).unwrap()).collect::<Vec<_>>()),
+                    "override": table.iter().map(|(i, f, t)| json!([i, f, t])).collect::<Vec<_>>(),
+                });
+                if let Some(b) = &built_w {
+                    let (v, _) = eng.verify_w3c(&b.pres, &b.req, &o);
+                    flows.push(json!({"format":"w3c","cls":format!("override:{tcls}"),"request":serde_json::to_value(&b.req).unwrap(),"presentation":serde_json::to_value(&b.pres).unwrap(),"ctx":ctxj,"native":v}));
+                }
+                if let Some(b) = &built_l {
+                    if let Some((v, _)) = eng.verify_legacy(&b.pres, &b.req, &o) {
+                        flows.push(json!({"format":"legacy","cls":format!("override:{tcls}"),"request":serde_json::to_value(&b.req).unwrap(),"presentation":b.pres,"ctx":ctxj,"native":v}));
+                    }
+                }
+            }
+        }
+    }
     // deterministic operations whose output must be byte-identical through both APIs
     let d = eng.cast.w.def("A");
     let schema_native = serde_json::to_string(&anoncreds::issuer::create_schema("gvt", "1.0", d.issuer.clone(), ["name", "age"][..].into()).unwrap()).unwrap();
